@@ -294,7 +294,7 @@ def check(col, prog, tier, profile, fixture=None):
         reads = 0
         bad = None
         badstride = None
-        for st in I.final_states + [s for l in I.backedge_states.values() for s in l]:
+        for st in I.all_end_states():
             sized = []
             for ev in st.event_list():
                 if ev.kind != "call":
@@ -345,7 +345,7 @@ def check(col, prog, tier, profile, fixture=None):
     b = fn["fft_internal"]
     I = A(b)
     okfirst = True
-    for st in I.final_states + [s for l in I.backedge_states.values() for s in l]:
+    for st in I.all_end_states():
         # calls that do not look at the plan tables (argument checks such as n.is_power_of_two(), bufs[B].len())
         # may precede the sizing; the first call that touches w / reversed, or any non-pure call, must be update_n(n)
         def touches_plan(e):
@@ -364,7 +364,7 @@ def check(col, prog, tier, profile, fixture=None):
         b = fn[nm]
         I = A(b)
         verdict = None
-        for st in I.final_states + [s for l in I.backedge_states.values() for s in l]:
+        for st in I.all_end_states():
             cleared = {}
             resized = {}
             for ev in st.event_list():
